@@ -649,9 +649,12 @@ def r03_6(prog, rep, rid="R03.6", files=("evstrm.c", "evfilt.c", "evical.c", "ev
     `<`/`>` between two packed instants anywhere else puts all-day occurrences behind the timed ones of the same day."""
     n = 0
     bad = 0
+    from ..order import wrapped_compare
     for f in prog.all_fns():
         if not f.cfg or f.file not in files:
             continue
+        if wrapped_compare(f) is not None:
+            continue        # the comparators' own idiom written out: both copies wrapped before their packed words are compared
         for b, i, x, line in f.cfg.all_elems():
             for nd in walk(x):
                 if nd.get("k") == "bin" and nd["op"] in ("<", ">", "<=", ">="):
